@@ -17,7 +17,8 @@ Programs are JSON-able ASTs (nested lists, first element = tag) so that cases ar
              ["inline", [params], body] inline function (closure)
              ["ref", name, arity]       named function reference name#arity
              ["dyn", f, [args]]         dynamic call f(args); an arg ["?"] = partial application
-             ["array", [members]]       square array constructor (only what fn:apply needs)
+             ["array", [members]]       square array constructor; ["mapc", [[k, v], ...]] map constructor;
+                                        ["lookup", e, key] e?key; arrays and maps are function items of arity 1
              ["arrow", e, f, a1, ...]   e => f(a1, ...); f = ["ref", name, arity] renders as a static name
              inline params may be "x" or ["x", "xs:integer"]; ["inline", params, body, "xs:integer"] declares
              the result type (only types the value already has: no conversion is modelled)
@@ -292,7 +293,7 @@ def matches_type(seq, t: str) -> bool:
     if base == 'item()':
         return True
     if base == 'function(*)':
-        return all(is_fn(it) for it in seq)
+        return all(is_callable(it) for it in seq)
     tags = _TYPE_TAGS[base]
     return all(not is_fn(it) and it[0] in tags for it in seq)
 
@@ -309,6 +310,37 @@ def is_node(it) -> bool:
     return isinstance(it, tuple) and it[0] == 'n'
 
 
+def is_map(it) -> bool:
+    return isinstance(it, tuple) and it[0] == 'M'
+
+
+def is_callable(it) -> bool:
+    """function items: inline / named / partial functions, and arrays and maps (functions of arity 1)"""
+    return is_fn(it) or is_array(it) or is_map(it)
+
+
+def arity_of(it) -> int:
+    return it.arity if is_fn(it) else 1
+
+
+def array_get(arr, pos_seq):
+    """$array($position as xs:integer): the member at that position, FOAY0001 outside 1..size"""
+    pos = as_integer_arg(pos_seq)[1]
+    members = arr[1]
+    if pos < 1 or pos > len(members):
+        raise XPError('FOAY0001', 'array index out of bounds')
+    return list(members[pos - 1])
+
+
+def map_get(m, key_seq):
+    """$map($key as xs:anyAtomicType): the associated value or () (keys generated: strings and integers)"""
+    key = _untyped_as_string(one_atomic(key_seq, 'map key'))
+    for k, v in m[1]:
+        if is_nan(key) and is_nan(k) or eq_items(k, key) is True:
+            return list(v)
+    return []
+
+
 # --------------------------------------------------------------------------
 # atomization, EBV, comparisons
 # --------------------------------------------------------------------------
@@ -323,7 +355,7 @@ def node_name(it) -> str:
 def atomize(seq):
     out = []
     for it in seq:
-        if is_fn(it):
+        if is_fn(it) or is_map(it):
             raise XPError('FOTY0013', 'atomization of a function item')
         if is_array(it):
             for m in it[1]:
@@ -343,7 +375,7 @@ def ebv(seq) -> bool:
         return True
     if len(seq) > 1:
         raise XPError('FORG0006', 'EBV of a sequence of two or more items not starting with a node')
-    if is_fn(first) or is_array(first):
+    if is_callable(first):
         raise XPError('FORG0006', 'EBV of a function item')
     t, v = first
     if t == 'b':
@@ -846,6 +878,24 @@ def fn_array_sort(ip, a):
     return [('A', tuple(tuple(members[i]) for i in order))]
 
 
+def fn_map_get(ip, a):
+    if len(a[0]) != 1 or not is_map(a[0][0]):
+        raise XPError('XPTY0004', 'map:get: map required')
+    return map_get(a[0][0], a[1])
+
+
+def fn_array_get(ip, a):
+    if len(a[0]) != 1 or not is_array(a[0][0]):
+        raise XPError('XPTY0004', 'array:get: array required')
+    return array_get(a[0][0], a[1])
+
+
+def fn_function_arity(ip, a):
+    if len(a[0]) != 1 or not is_callable(a[0][0]):
+        raise XPError('XPTY0004', 'function-arity: function item required')
+    return [('i', arity_of(a[0][0]))]
+
+
 def fn_string_length(ip, a):
     it = as_string_arg(a[0], empty_ok=True)
     return [('i', 0 if it is None else len(it[1]))]
@@ -863,10 +913,10 @@ def fn_lower_case(ip, a):
 
 # ---- higher-order functions (F&O 3.1 chapter 16) --------------------------
 def _one_fn(seq, arity):
-    if len(seq) != 1 or not is_fn(seq[0]):
+    if len(seq) != 1 or not is_callable(seq[0]):
         raise XPError('XPTY0004', 'function item required')
-    if seq[0].arity != arity:
-        raise XPError('XPTY0004', f'function of arity {arity} required, got arity {seq[0].arity}')
+    if arity_of(seq[0]) != arity:
+        raise XPError('XPTY0004', f'function of arity {arity} required, got arity {arity_of(seq[0])}')
     return seq[0]
 
 
@@ -915,12 +965,12 @@ def fn_for_each_pair(ip, a):
 
 
 def fn_apply(ip, a):
-    if len(a[0]) != 1 or not is_fn(a[0][0]):
+    if len(a[0]) != 1 or not is_callable(a[0][0]):
         raise XPError('XPTY0004', 'apply: function item required')
     if len(a[1]) != 1 or not is_array(a[1][0]):
         raise XPError('XPTY0004', 'apply: array required')
     f, members = a[0][0], a[1][0][1]
-    if f.arity != len(members):
+    if arity_of(f) != len(members):
         raise XPError('FOAP0001', 'apply: arity mismatch')
     return ip.call(f, [list(m) for m in members])
 
@@ -1006,6 +1056,7 @@ BUILTINS = {
     ('concat', 2): fn_concat, ('concat', 3): fn_concat, ('concat', 4): fn_concat, ('concat', 5): fn_concat,
     ('substring', 2): fn_substring, ('substring', 3): fn_substring,
     ('xs:integer', 1): fn_xs_integer, ('name', 1): fn_name,
+    ('map:get', 2): fn_map_get, ('array:get', 2): fn_array_get, ('function-arity', 1): fn_function_arity,
     ('array:sort', 1): fn_array_sort, ('array:sort', 2): fn_array_sort, ('array:sort', 3): fn_array_sort,
     ('string-length', 1): fn_string_length, ('upper-case', 1): fn_upper_case, ('lower-case', 1): fn_lower_case,
     ('for-each', 2): fn_for_each, ('filter', 2): fn_filter, ('fold-left', 3): fn_fold_left,
@@ -1038,7 +1089,12 @@ class Interp:
     def run(self, ast, variables=None):
         return self.ev(ast, dict(variables or {}), None)
 
-    def call(self, f: FnItem, args):
+    def call(self, f, args):
+        if not is_fn(f):        # an array or a map called as a function of arity 1
+            if len(args) != 1:
+                raise XPError('XPTY0004', f'array/map called with {len(args)} arguments')
+            self.calls += 1
+            return array_get(f, args[0]) if is_array(f) else map_get(f, args[0])
         if len(args) != f.arity:
             raise XPError('XPTY0004', f'arity {f.arity} function called with {len(args)} arguments')
         self.calls += 1
@@ -1259,11 +1315,11 @@ class Interp:
     # -- functions -----------------------------------------------------------
     def _partial(self, f: FnItem, args, env, focus, origin=None, kind='partial-dyn'):
         """args: AST list with ["?"] placeholders; fixed arguments are evaluated now"""
-        if len(args) != f.arity:
+        if len(args) != arity_of(f):
             raise XPError('XPTY0004', 'partial application: wrong number of arguments')
         fixed = [None if a[0] == '?' else self.ev(a, env, focus) for a in args]
         holes = [i for i, a in enumerate(fixed) if a is None]
-        mark = self._created(origin, kind, [f.ident] + [None if v is None else _sig(v) for v in fixed])
+        mark = self._created(origin, kind, [f.ident if is_fn(f) else canon_item(f)] + [None if v is None else _sig(v) for v in fixed])
 
         def impl(ip, call_args, f=f, fixed=fixed, holes=holes):
             ip._called(mark)
@@ -1348,21 +1404,44 @@ class Interp:
 
     def ev_dyn(self, n, env, focus):
         fs = self.ev(n[1], env, focus)
-        if len(fs) != 1 or not is_fn(fs[0]):
+        if len(fs) != 1 or not is_callable(fs[0]):
             raise XPError('XPTY0004', 'dynamic call: exactly one function item required')
         f = fs[0]
         args = n[2]
-        if len(args) != f.arity:
+        if len(args) != arity_of(f):
             raise XPError('XPTY0004', 'dynamic call: arity mismatch')
         if any(a[0] == '?' for a in args):
             return [self._partial(f, args, env, focus, n)]
         return self.call(f, [self.ev(a, env, focus) for a in args])
 
+    def ev_mapc(self, n, env, focus):
+        """["mapc", [[key expr, value expr], ...]]   map { k: v, ... }"""
+        entries = []
+        for ke, ve in n[1]:
+            k = one_atomic(self.ev(ke, env, focus), 'map key')
+            if any(eq_items(k, k2) is True for k2, _ in entries):
+                raise XPError('XQDY0137', 'duplicate map key')
+            entries.append((_untyped_as_string(k), tuple(self.ev(ve, env, focus))))
+        return [('M', tuple(entries))]
+
+    def ev_lookup(self, n, env, focus):
+        """["lookup", e, key]   e?key  with key an NCName (string) or an integer literal"""
+        key = [('s', n[2])] if isinstance(n[2], str) else [('i', n[2])]
+        out = []
+        for it in self.ev(n[1], env, focus):
+            if is_array(it):
+                out.extend(array_get(it, key))
+            elif is_map(it):
+                out.extend(map_get(it, key))
+            else:
+                raise XPError('XPTY0004', 'lookup: map or array required')
+        return out
+
     def ev_arrow(self, n, env, focus):
         """["arrow", e, f, a1, ...]:  e => f(a1, ...)  ==  f(e, a1, ...)   (XPath 3.1 3.16)"""
         first = self.ev(n[1], env, focus)
         fs = self.ev(n[2], env, focus)
-        if len(fs) != 1 or not is_fn(fs[0]):
+        if len(fs) != 1 or not is_callable(fs[0]):
             raise XPError('XPTY0004', 'arrow: function item required')
         return self.call(fs[0], [first] + [self.ev(a, env, focus) for a in n[3:]])
 
@@ -1396,6 +1475,8 @@ def canon_item(it):
         return [t, 'NaN' if math.isnan(v) else repr(v)]
     if t == 'A':
         return ['A', [canon_seq(m) for m in v]]
+    if t == 'M':
+        return ['M', [[canon_item(k), canon_seq(val)] for k, val in v]]
     return [t, v]
 
 
@@ -1484,13 +1565,17 @@ def render(n) -> str:
         return f'{_primary(n[1])}(' + ', '.join(render(a) for a in n[2]) + ')'
     if t == 'array':
         return '[' + ', '.join(render(m) for m in n[1]) + ']'
+    if t == 'mapc':
+        return 'map { ' + ', '.join(f'{render(k)}: {render(v)}' for k, v in n[1]) + ' }'
+    if t == 'lookup':
+        return f'{_primary(n[1])}?{n[2]}'
     if t == 'arrow':
         target = n[2][1] if n[2][0] == 'ref' else _primary(n[2])
         return f'({render(n[1])} => {target}(' + ', '.join(render(a) for a in n[3:]) + '))'
     raise ValueError(f'unknown AST node {t!r}')
 
 
-_POSTFIX_OK = ('var', 'call', 'filter', 'dyn', 'str', 'array', 'empty', 'ctx', 'uri')
+_POSTFIX_OK = ('var', 'call', 'filter', 'dyn', 'str', 'array', 'empty', 'ctx', 'uri', 'mapc', 'lookup')
 
 
 def _primary(n) -> str:
@@ -1708,6 +1793,19 @@ def self_test():
     assert val(['map', ['nodes', 'a'], ['call', 'name', []]]) == strs('a', 'a', 'a')
     assert val(['call', 'sort', [['seq', ['uri', 'b'], ['str', 'a'], ['unt', 'c']]]]) == [['s', 'a'], ['a', 'b'], ['u', 'c']]
     assert val(['call', 'array:sort', [['array', [['int', 3], ['int', 1], ['int', 2]]]]]) == [['A', [[['i', 1]], [['i', 2]], [['i', 3]]]]]
+    m = ['mapc', [[['str', 'k'], _I(1, 2)], [['int', 5], ['str', 'x']]]]
+    lk = ['dyn', ['var', 'm'], [['str', 'k']]]
+    assert val(['let', [['m', m]], ['seq', ['seq', lk, ['int', 3]], ['call', 'count', [lk]]]]) == ints(1, 2, 3, 2)
+    assert val(['let', [['m', m]], ['seq', ['lookup', ['var', 'm'], 'k'], ['lookup', ['var', 'm'], 5],
+                                    ['call', 'map:get', [['var', 'm'], ['str', 'zz']]]]]) == [['i', 1], ['i', 2], ['s', 'x']]
+    arr = ['array', [_I(1, 2), ['int', 5]]]
+    assert val(['seq', ['dyn', arr, [['int', 1]]], ['lookup', arr, 2], ['call', 'array:get', [arr, ['int', 2]]]]) == ints(1, 2, 5, 5)
+    assert err(['dyn', arr, [['int', 3]]]) == 'FOAY0001'
+    assert val(['call', 'apply', [arr, ['array', [['int', 2]]]]]) == ints(5) and err(['call', 'apply', [arr, ['array', [['int', 1], ['int', 2]]]]]) == 'FOAP0001'
+    assert val(['call', 'for-each', [_I(2, 1), arr]]) == ints(5, 1, 2)
+    assert val(['call', 'function-arity', [m]]) == ints(1)
+    assert val(['dyn', ['dyn', arr, [['?']]], [['int', 2]]]) == ints(5)
+    assert render(['lookup', ['var', 'm'], 'k']) == '$m?k' and render(['dyn', m, [['str', 'k']]]).startswith('map { "k": (1, 2), 5: "x" }(')
     mixed = _S('b', 'A', 'a', 'B', '_', 'Z')
     assert val(['call', 'sort', [mixed]]) == strs('A', 'B', 'Z', '_', 'a', 'b')
     assert val(['call', 'sort', [mixed, ['str', COLLATION_HTML_ASCII]]]) == strs('_', 'A', 'a', 'b', 'B', 'Z')
